@@ -442,6 +442,7 @@ Legal(kk, p, in) ==
     [] op \in {"pacq", "ppre"} -> a1 >= 1 /\ kk.pheld[p] + a1 <= PoolCap
     [] op = "prel" -> a1 >= 1 /\ kk.pheld[p] >= a1
     [] op = "intr" -> Alive(kk, a1) /\ a1 # p
+    [] op = "resume" -> Alive(kk, a1) /\ a1 # p /\ kk.call[a1].op = "yield"    \* documented for a process that has yielded
     [] op = "stop" -> Alive(kk, a1)
     [] op = "prio" -> a1 \in PIDs
     [] op = "start" -> a1 \in PIDs /\ a1 # p /\ kk.st[a1] # "alive" /\ ~(\E e \in kk.evq : e.p = a1)
@@ -500,6 +501,7 @@ Exec1(S, p, in) ==
              S1 == SetK(S, [kk EXCEPT !.evq = {e \in @ : e.h \notin hs}, !.awaits[p] = {b \in @ : b.ty # "time"}])
          IN Snap(Emit(S1, DoEv(p, in, 0, 0, t)))
     [] op = "intr" -> Snap(Emit(Sched(S, "interrupt", t, a3, a1, a2), DoEv(p, in, 0, 0, t)))
+    [] op = "resume" -> Snap(Emit(Sched(S, "resume", t, kk.prio[a1], a1, a2), DoEv(p, in, 0, 0, t)))   \* cmb_process_resume
     [] op = "prio" ->
          LET q == a1
              timeHs == {a.x : a \in {b \in kk.awaits[q] : b.ty = "time"}}
@@ -590,7 +592,7 @@ DispatchEv(S, e) ==
     [] e.kind = "process" ->
          LET S2 == SetK(S1, [S1.k EXCEPT !.awaits[p] = {a \in @ : a.ty # "proc"}]) IN
          IF S2.k.st[p] = "alive" THEN Deliver(S2, p, e.arg) ELSE ToDispatcher(S2)
-    [] e.kind \in {"resource", "preempt"} ->
+    [] e.kind \in {"resource", "preempt", "resume"} ->
          IF S1.k.st[p] = "alive" THEN Deliver(S1, p, e.arg) ELSE ToDispatcher(S1)
     [] e.kind = "condition" ->
          LET ra == {a \in S1.k.awaits[p] : a.ty = "res"}
